@@ -683,6 +683,19 @@ def setup_kw(case):
     raise LookupError(f'no keyword recipe for {cls or mod}.{func}')
 
 # --------------------------------------------------------------------------------------- run
+_NUM = re.compile(r'\d+(\.\d+)?([eE][+-]?\d+)?')
+
+
+def exc_text(c, exc):
+    """Message of an exception.  Errors of the C++ engine quote the row that failed first and the values of
+    that row inside the printed expression: which row reports first is a race between the engine's threads,
+    so numbers are masked in those messages (file names, expression structure and wording are kept)."""
+    t = c.text(str(exc))
+    if 'cythonbiogeme' in t or 'Biogeme exception' in t:
+        t = _NUM.sub('#', t)
+    return t
+
+
 class SetupError(Exception):
     pass
 
@@ -777,7 +790,7 @@ def one_run(case, name):
         blog.setLevel(old_levels[1])
         c = Canon()
         comp['result'] = digest(c.go(result))
-        comp['exception'] = digest(None if exc is None else [type(exc).__module__ + '.' + type(exc).__qualname__, c.text(str(exc))])
+        comp['exception'] = digest(None if exc is None else [type(exc).__module__ + '.' + type(exc).__qualname__, exc_text(c, exc)])
         if case.get('kind') == 'kw':  # the keyword's own spelling is the one intended difference
             state = {'args': c.go(list(args)), 'value': c.go(value),
                      'kwargs': c.go({k: x for k, x in kwargs.items() if k not in (case['okw'], case['nkw'])})}
@@ -946,8 +959,9 @@ for case in payload['cases']:
             except ChildDied:
                 diffs = []
                 break
-            keep = {d['at'] for d in d2}
-            diffs = [d for d in diffs if d['at'] in keep]
+            # a genuine difference is deterministic: same place, same two values, every time
+            keep = {(d['at'], d['old'], d['new']) for d in d2}
+            diffs = [d for d in diffs if (d['at'], d['old'], d['new']) in keep]
             unstable += u2
             rounds += 1
         r['status'] = 'ran'
